@@ -120,3 +120,93 @@ Example C18_comp_ex_clean_run : exists s s1,
   LTS.run (Composite.step c18_comp_params) Composite.init (firstn 24 c18_comp_sched) = Some s1 /\
   CompositeMon.census s1 = 2.
 Proof. eexists. eexists. split; [vm_compute; reflexivity|]. vm_compute. repeat split. Qed.
+
+(* ======================================================================================================
+   C18 - HTTP-server leg (appended; model coq/model/HttpServer.v, proofs coq/proofs/HttpCensus.v).
+   The goroutines the HTTP runner creates on its own behalf are the serve goroutines started by boot()
+   ("go func() { server.ListenAndServe() ... }()"), one per server ever created - by Run's boot and by every
+   Reload that restarts; Run, Reload and stopServer start nothing else.  [HttpServer.census] counts the ones
+   that have not finished; the harness compares it with the real census (goroutines whose creator is a
+   function of runnables/httpserver, read from runtime.Stack) at every quiescent point of the reload histories
+   and after Run() returned.  Every schedule: any number of reloads / restarts / failed boots, Stop and cancel
+   at any time (before Run, inside the boot's probe window, during a reload), every callback and Shutdown
+   result.  Hypothesis as for C12: no foreign binder (the bind-failure path is covered by the check only).
+   (Names are qualified: the composite model above uses the same constructor names.) *)
+From Coq Require Import ZArith.
+From GS Require HttpCfg HttpServer HttpInvStep2 HttpProps HttpCensus.
+
+(* zero once Run() has returned and the serve goroutines have run as far as they can - whether Run() returned
+   from a clean stop, from a FAILED boot (rejected configuration, readiness probe cut short) or from a boot
+   whose context was cancelled before the first probe tick *)
+Theorem C18_http_clean : forall sl validated mux_ok c0 ls s,
+  HttpInvStep2.no_foreign ls ->
+  LTS.run (HttpServer.step sl validated mux_ok) (HttpServer.init c0) ls = Some s ->
+  HttpServer.crashed s = false ->
+  (exists r, HttpServer.rpc s = HttpServer.RRet r) \/ HttpServer.rpc s = HttpServer.RDone ->
+  (forall sid, HttpServer.step sl validated mux_ok s (HttpServer.LLasClosed sid) = None) ->
+  HttpServer.census s = 0.
+Proof. exact HttpCensus.http_census_clean. Qed.
+
+(* ... and nothing is left blocked: a serve goroutine still alive after Run() returned can always exit
+   (ListenAndServe returns ErrServerClosed: every server has been shut down) *)
+Theorem C18_http_no_blocked_leftover : forall sl validated mux_ok c0 ls s sid sv,
+  HttpInvStep2.no_foreign ls ->
+  LTS.run (HttpServer.step sl validated mux_ok) (HttpServer.init c0) ls = Some s ->
+  HttpServer.crashed s = false ->
+  (exists r, HttpServer.rpc s = HttpServer.RRet r) \/ HttpServer.rpc s = HttpServer.RDone ->
+  nth_error (HttpServer.servers s) sid = Some sv -> HttpServer.serve_alive sv = true ->
+  HttpServer.step sl validated mux_ok s (HttpServer.LLasClosed sid) <> None.
+Proof. exact HttpCensus.http_no_blocked_leftover. Qed.
+
+(* while running: at most ONE goroutine at every point where the serve goroutines have settled, whatever the
+   number of reloads, restarts and failed boots - they do not accumulate *)
+Theorem C18_http_bounded : forall sl validated mux_ok c0 ls s,
+  HttpInvStep2.no_foreign ls ->
+  LTS.run (HttpServer.step sl validated mux_ok) (HttpServer.init c0) ls = Some s ->
+  HttpServer.crashed s = false ->
+  (forall sid, HttpServer.step sl validated mux_ok s (HttpServer.LLasClosed sid) = None) ->
+  HttpServer.census s <= 1.
+Proof. exact HttpCensus.http_census_bounded. Qed.
+
+(* the census observation of the harness is the model's *)
+Theorem C18_http_observable : forall sl validated mux_ok c0 ls s,
+  LTS.run (HttpServer.step sl validated mux_ok) (HttpServer.init c0) ls = Some s ->
+  HttpServer.crashed s = false ->
+  HttpServer.step sl validated mux_ok s (HttpServer.LObsCensus (HttpServer.census s)) = Some s.
+Proof. exact HttpCensus.http_census_observable. Qed.
+
+Print Assumptions C18_http_clean.
+Print Assumptions C18_http_no_blocked_leftover.
+Print Assumptions C18_http_bounded.
+Print Assumptions C18_http_observable.
+
+(* non-vacuity: (1) boot, a restarting reload, Stop: 1 goroutine while running, 2 for an instant during the
+   restart, 0 at the end; (2) the context is cancelled before Run: the boot fails, Run returns the boot error,
+   the serve goroutine exits: 0 *)
+Definition c18_http_cfg (a : N) : HttpCfg.config :=
+  HttpCfg.Build_config [a] 5%Z 1%Z 2%Z 3%Z [HttpCfg.Build_route [97%N] [47%N; 120%N]].
+Definition c18_http_sched : list HttpServer.label :=
+  [HttpServer.LRunCall; HttpServer.LRunStart; HttpServer.LRunLock; HttpServer.LBootCreate 0 (c18_http_cfg 65%N);
+   HttpServer.LBindOk 0; HttpServer.LProbeOk; HttpServer.LRunFinishBoot; HttpServer.LObsCensus 1;
+   HttpServer.LReloadCall 0; HttpServer.LReloadBegin 0; HttpServer.LFetch (HttpServer.CbCfg (c18_http_cfg 66%N));
+   HttpServer.LStopCallS 0; HttpServer.LShutdownRet 0 HttpServer.SOk; HttpServer.LBootCreate 1 (c18_http_cfg 66%N);
+   HttpServer.LObsCensus 2; HttpServer.LLasClosed 0; HttpServer.LBindOk 1; HttpServer.LProbeOk; HttpServer.LFinish;
+   HttpServer.LReloadRet 0; HttpServer.LObsCensus 1;
+   HttpServer.LStopCall 0; HttpServer.LRunWake; HttpServer.LRunLockStop; HttpServer.LStopCallS 1;
+   HttpServer.LShutdownRet 1 HttpServer.SOk; HttpServer.LRunRet HttpServer.ROk; HttpServer.LStopRet 0;
+   HttpServer.LLasClosed 1; HttpServer.LObsCensus 0].
+Example C18_http_ex_restart_and_stop : exists s,
+  LTS.run (HttpServer.step true true (fun _ => true)) (HttpServer.init (c18_http_cfg 65%N)) c18_http_sched = Some s /\
+  HttpServer.census s = 0 /\ HttpServer.rpc s = HttpServer.RDone /\ length (HttpServer.servers s) = 2.
+Proof. eexists. split; [vm_compute; reflexivity|]. repeat split. Qed.
+Definition c18_http_cancelled : list HttpServer.label :=
+  [HttpServer.LCancel; HttpServer.LRunCall; HttpServer.LRunStart; HttpServer.LRunLock;
+   HttpServer.LBootCreate 0 (c18_http_cfg 65%N); HttpServer.LProbeCancelled; HttpServer.LCleanupCall 0;
+   HttpServer.LObsCensus 1; HttpServer.LShutdownRet 0 HttpServer.SOk; HttpServer.LRunRet HttpServer.RBootErr;
+   HttpServer.LLasClosed 0; HttpServer.LObsCensus 0].
+Example C18_http_ex_cancelled_boot : exists s,
+  LTS.run (HttpServer.step true true (fun _ => true)) (HttpServer.init (c18_http_cfg 65%N)) c18_http_cancelled = Some s /\
+  HttpServer.census s = 0 /\ HttpServer.rpc s = HttpServer.RDone /\ HttpServer.fsm_st s = HttpServer.FError.
+Proof. eexists. split; [vm_compute; reflexivity|]. repeat split. Qed.
+Example C18_http_ex_no_foreign : HttpInvStep2.no_foreign c18_http_sched /\ HttpInvStep2.no_foreign c18_http_cancelled.
+Proof. split; repeat constructor. Qed.
